@@ -141,6 +141,17 @@ Section Metric.
   Lemma dist_zero_iff_lemma a b : distance H a b = 0 <-> H (as_bytes a) = H (as_bytes b).
   Proof. apply N.lxor_eq_0_iff. Qed.
 
+  (* a zero distance between different address bytes is a collision of the digest *)
+  Lemma dist_zero_equal_or_collision a b : distance H a b = 0 ->
+    as_bytes a = as_bytes b \/ (as_bytes a <> as_bytes b /\ H (as_bytes a) = H (as_bytes b)).
+  Proof.
+    intros E. apply dist_zero_iff_lemma in E.
+    destruct (list_eq_dec N.eq_dec (as_bytes a) (as_bytes b)) as [Eq|Ne]; [left; exact Eq|right; split; [exact Ne|exact E]].
+  Qed.
+
+  Lemma dist_zero_of_equal_bytes a b : as_bytes a = as_bytes b -> distance H a b = 0.
+  Proof. intros E. unfold distance, kbucket_key. rewrite E. apply N.lxor_nilpotent. Qed.
+
   Lemma dist_bound_lemma a b : distance H a b < 2 ^ 256.
   Proof. apply lxor_lt_pow2; apply H_bound. Qed.
 
@@ -222,6 +233,21 @@ Section Metric.
     destruct (N.ltb_spec (N.of_nat (List.length peers)) CLOSE_GROUP_SIZE) as [Hlt|Hge].
     - split; [intros E; injection E as <- <-; auto|intros (_ & -> & ->); reflexivity].
     - split; [discriminate|intros (Hlt & _); lia].
+  Qed.
+
+  (* when enough peers are known the call returns exactly the n nearest, ascending *)
+  Lemma sort_returns_n_nearest peers kd n : CLOSE_GROUP_SIZE <= N.of_nat (List.length peers) ->
+    n <= N.of_nat (List.length peers) ->
+    exists l rest, sort_peers_by_key H peers kd n = SortOk l /\ N.of_nat (List.length l) = n /\
+      sorted_by (key_peer_distance H kd) l /\ Permutation (l ++ rest) peers /\
+      forall x y, In x l -> In y rest -> key_peer_distance H kd x <= key_peer_distance H kd y.
+  Proof.
+    intros Hc Hn.
+    destruct (sort_peers_by_key H peers kd n) as [l|f r] eqn:E.
+    - destruct (sort_perm_lemma _ _ _ _ E) as (rest & P & C & _).
+      exists l, rest. split; [reflexivity|]. split; [rewrite (sort_length_lemma _ _ _ _ E); lia|].
+      split; [apply (sort_sorted_lemma _ _ _ _ E)|]. split; assumption.
+    - apply sort_error_iff_lemma in E. lia.
   Qed.
 
   (* "returns the requested number ... or reports that too few are known" *)
@@ -475,3 +501,16 @@ Example candidates_example :
   get_replicate_candidates sha256 (kad_closest_local_peers sha256 f17_peers f17_target) f17_target (Some 0)
   = firstn 5 (kad_closest_local_peers sha256 f17_peers f17_target).
 Proof. vm_compute. reflexivity. Qed.
+
+(* the premise "H x < 2^256" is satisfiable: SHA-256 is such a digest, so every general theorem
+   applies to the function the implementation is compared with *)
+Example sha256_instance a b :
+  distance sha256 a b < 2 ^ 256 /\ distance_u256 sha256 a b = distance sha256 a b.
+Proof. split; [apply dist_bound_lemma, sha256_lt|apply distance_u256_exact, sha256_lt]. Qed.
+
+Example outside_known_example : ~ KnownShortList f17_peers 6 /\
+  returns_requested_or_error (sort_peers_by_address sha256 f17_peers f17_target 6) 6.
+Proof.
+  split; [unfold KnownShortList; vm_compute; intros [_ Hc]; discriminate|].
+  vm_compute. reflexivity.
+Qed.
